@@ -179,7 +179,7 @@ fn gen_scenario(check: &str, seed: u64, run: u64) -> Scenario {
         threads.push(vec![Instr::Gc; k]);
     }
     let mut exclusive = vec![];
-    if pf.exclusive && rng.chance(1, 2) && kind != Kind::Zbdd && capacity == 1 << 16 && !alloc_fail {
+    if pf.exclusive && rng.chance(1, 2) && capacity == 1 << 16 && !alloc_fail {
         let k = rng.range(1, 3);
         for _ in 0..k {
             let mut vs: Vec<u32> = (0..vars).collect();
